@@ -24,6 +24,7 @@ func registerModels(e *Engine) {
 	registerTime(e)
 	registerContext(e)
 	registerJSON(e)
+	registerPath(e)
 }
 
 const modelPkgPath = "github.com/regclient/regclient/internal/zzmodel"
